@@ -90,6 +90,14 @@ func bcheck(t *testing.T, n *programTree, root *programTree, inherits bool, labe
 			}
 		}
 	}
+	if !inherits {
+		// at and below a wrapper nothing of the root's options is known (they would be offered by completion and swallowed by the parser)
+		for _, k := range []string{"help", "?", "verbose", "v"} {
+			if _, ok := n.ChildOptions[k]; ok {
+				t.Fatalf("%s: node %q is a wrapper or lies below one but knows the root's option %q", label, n.Name, k)
+			}
+		}
+	}
 	for k, c := range n.ChildCommands {
 		if k == "help" {
 			continue
